@@ -35,7 +35,7 @@ ASSUMPTIONS = ["data_type = soc, every order ranks every alternative exactly onc
 COVER_FILES = ['properties/subdomains/ordinal/singlepeaked/singlepeakedness.py']
 TIMEOUT_S = 30.0
 CHUNK = 40
-THEOREMS_FOR_OP = {"c03.sp": "sp_decide_correct / sp_check_axis_correct / sp_restrict"}
+THEOREMS_FOR_OP = {"c03.sp": "sp_decide_correct / sp_check_axis_correct / sp_restrict / elo_sound / elo_complete"}
 
 
 # ------------------------------------------------------------------------------------------------ generators
@@ -329,6 +329,7 @@ def oracle_requests(c, r):
         reqs.append(("c03.decide", [a2, r2]))
     if isinstance(r, list) and r[0] == 0 and r[1] == 1:
         reqs.append(("c03.check_axis", [alts, rankings, r[2]]))
+    reqs.append(("c03.elo", [alts, rankings]))          # the mirror of the algorithm, always last
     return reqs
 
 
@@ -361,10 +362,20 @@ def judge(c, r, mres):
         return {"kind": "mismatch", "theorem": "sp_decide_correct" if mode == 1 else "sp_restrict",
                 "reason": "is_single_peaked -> %r, expected %r: %s" % (bool(r[1]), bool(exp), why)}
     if r[1] == 1:
-        if len(mres) <= i or mres[i] != 1:
+        if len(mres) <= i + 1 or mres[i] != 1:
             return {"kind": "mismatch", "theorem": "sp_check_axis_correct",
                     "reason": "returned axis %r is not a permutation of the alternatives w.r.t. which every voter is "
                               "single-peaked" % (r[2],)}
+    # the mirrored algorithm (Model/ELO.v) is deterministic in the storage order: the verdict must agree exactly,
+    # at every size; the axis is only counted (stats)
+    me = mres[-1]
+    if me[0] != 0:
+        return {"kind": "mismatch", "theorem": "elo_no_error / elo_terminates",
+                "reason": "the mirror of is_single_peaked ends with error code %r on a well-formed profile while the "
+                          "implementation returned %r" % (me[1], r[1:])}
+    if me[1][0] != r[1]:
+        return {"kind": "mismatch", "theorem": "elo mirror (Model/ELO.v): elo_sound / elo_complete",
+                "reason": "is_single_peaked -> %r, its statement-by-statement mirror -> %r" % (bool(r[1]), bool(me[1][0]))}
     return None
 
 
@@ -389,6 +400,11 @@ def stats(c, r, m):
             lab.append("large planted %s" % size)
     if isinstance(r, list) and r[0] == 0 and r[1] == 1:
         lab.append("axis checked %s" % size)
+    me = m[-1]
+    if isinstance(r, list) and r[0] == 0 and me[0] == 0:
+        lab.append("mirror verdict compared %s" % ("(large)" if mode == 0 else "(small)"))
+        if r[1] == 1 and me[1][0] == 1:
+            lab.append("mirror axis identical" if me[1][1] == r[2] else "mirror axis DIFFERS (not an alarm)")
     verdict = "SP" if exp == 1 else ("notSP" if exp == 0 else "unknown")
     d = common_bottom_depth(rankings)
     if d >= 1 and len(rankings) >= 2 and mm >= 3:
